@@ -300,7 +300,15 @@ func checkC20(sc *Scenario, st *Stats) *Violation {
 		m.rows = make([]meterRow, 0, 2*ex0.HistN+64)
 		m.keep = func(op byte) bool { return op == ex0.HistOp }
 	}
-	art := RunArtela(sc, ArtelaOpts{CustomTracer: meterA{m}, NoRoot: true, WrapState: func(s avm.StateDB) avm.StateDB {
+	// A host answers BLOCKHASH by walking its chain back from the head (one header
+	// read per block, as go-ethereum's GetHashFn does): a lookup outside the window of
+	// 256 blocks is work without a bound for the flat 20 gas
+	var badLookups []uint64
+	art := RunArtela(sc, ArtelaOpts{CustomTracer: meterA{m}, NoRoot: true, OnGetHash: func(n uint64) {
+		if n >= scenBlockNumber || n+256 < scenBlockNumber {
+			badLookups = append(badLookups, n)
+		}
+	}, WrapState: func(s avm.StateDB) avm.StateDB {
 		m.cs = &countState{StateDB: s.(*state.StateDB)}
 		return m.cs
 	}})
@@ -317,6 +325,9 @@ func checkC20(sc *Scenario, st *Stats) *Violation {
 			}
 			return violf("panic", "%s: the VM panicked: %.1500s", ex.Note, p)
 		}
+	}
+	if len(badLookups) > 0 {
+		return violf("blockhash/out-of-window-lookup", "%s: the host was asked for the hash of block %d while executing block %d (window: the 256 most recent blocks); a chain-walking host does %d header reads for BLOCKHASH's flat fee", ex.Note, badLookups[0], scenBlockNumber, scenBlockNumber-int(minU64(badLookups[0], scenBlockNumber)))
 	}
 	big20, multi := false, false
 	for _, w := range m.work() {
@@ -518,9 +529,23 @@ func genC20(t *rapid.T) *Scenario {
 		// any single standard or journal instruction with generated operands
 		g := newProgGen(t, ProgCfg{Fork: fork, Journal: true, Contracts: 2})
 		note = "micro op"
+		bh := chance(t, 15, "blockhash")
+		var bhn *uint256.Int
+		if bh {
+			// block numbers around the 256-block window of block 1000, and far away
+			bhn = uint256.NewInt(pickU64(t, "bhn", 0, 1, 500, 743, 744, 745, 998, 999, 1000, 1001, 1<<32, ^uint64(0)))
+			if chance(t, 15, "bhbig") {
+				bhn = genWord(t, "bhw")
+			}
+			note = "micro blockhash big"
+		}
 		sc = c20Probe(fork, func(a *Asm) {
 			c := &codeGen{g: g, a: a}
 			a.Push(1).Push(0x400).Op(MSTORE)
+			if bh {
+				a.Push(bhn).Op(BLOCKHASH, POP)
+				return
+			}
 			c.micro()
 		}, hostileStorageSmall(t), rapid.SliceOfN(rapid.Byte(), 0, 64).Draw(t, "cd"))
 	}
@@ -593,3 +618,10 @@ func TestC20(t *testing.T)       { runProp(t, "C20", genC20, checkC20) }
 func TestC20Replay(t *testing.T) { replayProp(t, "C20", checkC20) }
 
 var _ = uint256.NewInt
+
+func minU64(a, b uint64) uint64 {
+	if a < b {
+		return a
+	}
+	return b
+}
